@@ -132,6 +132,7 @@ type tokInfo struct {
 }
 
 type streamEnv struct {
+	noLearn bool // never try to open unknown values as tokens (no server at hand)
 	store   *memStorage
 	cfg     streamCfg
 	srv     *vgirpc.Server
@@ -172,10 +173,13 @@ func registerScriptMethods(srv *vgirpc.Server) {
 		})
 }
 
-func newStreamEnv(cfg streamCfg) *streamEnv {
+func newStreamEnv(cfg streamCfg) *streamEnv { return newStreamEnvWith(cfg, registerScriptMethods) }
+
+// newStreamEnvWith builds the environment with a caller-chosen method registration.
+func newStreamEnvWith(cfg streamCfg, register func(*vgirpc.Server)) *streamEnv {
 	e := &streamEnv{cfg: cfg, callTok: map[string]int{}}
 	e.srv = vgirpc.NewServer()
-	registerScriptMethods(e.srv)
+	register(e.srv)
 	if cfg.ext {
 		e.store = &memStorage{}
 		ec := &vgirpc.ExternalLocationConfig{Storage: e.store, ExternalizeThresholdBytes: cfg.thr}
@@ -290,6 +294,27 @@ func (e *streamEnv) post(inst int, path string, body []byte, hdr map[string]stri
 		body: rr.Body.Bytes(), header: rr.Header()}
 	res.batches, res.parseOK = parseIPCBody(res.body)
 	return res
+}
+
+// countIPCStreams counts the concatenated IPC streams of a body (empty streams included).
+func countIPCStreams(body []byte) int {
+	r := bytes.NewReader(body)
+	n := 0
+	for r.Len() > 0 {
+		rd, err := ipc.NewReader(r)
+		if err != nil {
+			return n
+		}
+		for rd.Next() {
+		}
+		err = rd.Err()
+		rd.Release()
+		if err != nil {
+			return n
+		}
+		n++
+	}
+	return n
 }
 
 // parseIPCBody reads every concatenated IPC stream of a response body.
@@ -418,7 +443,7 @@ func (e *streamEnv) symOf(v string, learn bool) (string, bool) {
 	if c, ok := e.callTok[v]; ok {
 		return fmt.Sprintf("C%d", c), true
 	}
-	if !learn || len(v) < 40 {
+	if !learn || e.noLearn || len(e.hs) == 0 || len(v) < 40 {
 		return "", false
 	}
 	if callID, state, err := e.hs[0].VerifC16OpenCursor([]byte(v)); err == nil {
